@@ -415,7 +415,8 @@ pub fn check_api(b: &Built, rec: &Recorder, c: &mut Counters) -> u64 {
     cx.call("new_from_nodes_and_edges", "own lists".into(), false, || r(G2::new_from_nodes_and_edges(g.get_all_nodes().into_iter().cloned().collect(), g.get_all_edges().into_iter().cloned().collect(), g.specs.clone())));
     for &x in &names {
         for &y in &names {
-            let a = is_abs(x) || is_abs(y);
+            // an absent name is refused only under MissingNodeStrategy::Error (route-built graphs may use Create)
+            let a = (is_abs(x) || is_abs(y)) && g.specs.missing_node_strategy == graphrs::MissingNodeStrategy::Error;
             cx.call("add_edge", format!("{x:?}, {y:?} on a rebuilt copy"), a, || {
                 let mut g2 = G2::new(g.specs.clone());
                 g2.add_nodes(g.get_all_nodes().into_iter().cloned().collect());
@@ -635,6 +636,8 @@ pub fn c20_families(tier: &str) -> Vec<Family> {
         }
         v.push(fam(k, 3, "u", &ORD_ONE));
     }
+    v.extend(route_small("w12", true));
+    v.extend(hist_small("w12", true));
     // negative weights are representable; Dijkstra must answer ContradictoryPaths or a value, and
     // whatever a failed call leaves behind must not hurt the next call on the same thread
     v.push(fam(DS, 3, "wneg", &ORD_ONE));
